@@ -42,12 +42,18 @@ CLAIMS["C12"] = claim("lean-model + harness seq",
     "above the limits, all strategies and fractions, observed victims validated by the proved predicate.",
     "float64 n*frac idealised by exact rationals (one entry slack only within 2^-20 of an integer); sort.Slice tie order unspecified.",
     "Lean 4 proof (arithmetic + sortedness, all sizes/fractions/histories) + model/implementation correspondence", "DESIGN.md §6 C12")
-CLAIMS["C18"] = claim("lean-model + harness seq (counting StatsTracker)",
-    "Lean 4 theorem C18_backend_totals: for every history the emitted metric events sum to exactly the operation counts "
-    "(hit+miss+expired = non-skipped reads + entries touched by ExpireAll, write, delete), by induction; the real totals of a "
-    "counting StatsTracker are compared per cache name with the model's totals after every generated script.",
-    "Backend counters only in this check's theorem file so far; Failover counters are compared by the scheduler engine.",
-    "Lean 4 proof (additivity over histories) + model/implementation correspondence", "DESIGN.md §6 C18")
+CLAIMS["C18"] = claim("lean-model + harness seq / fo / linz / conserve (counting StatsTracker)",
+    "Lean 4 theorems: for every sequential history the emitted metric events sum to exactly the operation counts "
+    "(C18_backend_totals: hit+miss+expired = non-skipped reads + entries touched by ExpireAll, write, delete; C18_cleanup_metrics; "
+    "C18_failover_totals / C18_refreshed_counts_restores for the frontend machine, every schedule), by induction; and for SyncMap under "
+    "concurrency, at the granularity of sync.Map primitives with the reporting decisions regenerated from the source: for EVERY interleaving "
+    "of Writes, Deletes and the per-key steps of any number of DeleteAll calls the delete counter equals the entries removed and entries are "
+    "conserved per key (C18_syncmap_removals_counted_exactly, C18_syncmap_entries_conserved); the code before repair F15 is refuted "
+    "(C18_blind_sweep_overcounts). Implementation side: the totals of a counting StatsTracker compared per cache name with the model after "
+    "every generated script (backends, Failover scheduler engine), a per-key delete-overcount monitor under concurrent deletes, a conservation "
+    "engine (every key written once; cache_delete must equal keys written minus Len under concurrent Delete / DeleteAll), and a builder-panic suite.",
+    "sync.Map primitives are assumed atomic; builder panics are outside the Lean machine (bookkeeping monitors only).",
+    "Lean 4 proof (additivity over histories; induction over primitive interleavings) + model/implementation correspondence", "DESIGN.md §6 C18")
 
 CLAIMS["C13"] = claim("lean-model + harness xfer",
     "Lean 4 theorems: restoring ANY permutation of a store's entries into an empty cache of the same family reproduces it slot by slot "
@@ -148,10 +154,12 @@ CLAIMS["C08"] = claim("lean-model (Linz checker, slot-heap model) + harness linz
     "history has a real-time respecting witness order that replays on the proved backend model), and the only multi-section operation of "
     "the sharded maps — Read: pointer fetch under the read lock, evaluation after unlock, against in-place expiry rewrites by ExpireAll — "
     "takes effect at one instant for EVERY interleaving of other operations' lock sections (C08_read_linearizes, induction over the "
-    "interleaving). Implementation side: 2-8 free-running goroutines with random op mixes over plain and xxhash64-colliding keys on all "
+    "interleaving); and the linearization-point theorem: every execution in which each operation acts on the slot in ONE section inside its "
+    "invocation/response interval (any goroutines, any interleaving, batch operations acting at one instant) has a linearizable history "
+    "(C08_linearization_points, C08_single_section_ops_linearizable). Implementation side: 2-8 free-running goroutines with random op mixes over plain and xxhash64-colliding keys on all "
     "backends and strategies, every slot history judged by the Lean checker; concurrent Walk monitor; a directed cleanup/rewrite stress.",
     "Partial: mutual exclusion of sync.RWMutex / linearizability of sync.Map / Go map iteration guarantees are assumed; schedules are sampled, not enumerated.",
-    "Lean 4 proof (checker soundness + induction over lock-section interleavings) + statistical correspondence", "DESIGN.md §6 C08")
+    "Lean 4 proof (checker soundness, linearization-point theorem, induction over lock-section interleavings) + statistical correspondence", "DESIGN.md §6 C08")
 
 NOT_APPLICABLE = {}
 for _p in []:
